@@ -39,14 +39,19 @@ Proof. intros x r H Hx. unfold qsqrt_exact in H.
 
 Definition oq (o : option Qc) := option_map qout o.
 
-(* one observation of a calculator: (teststat, sqrtqmuA_v, pvalues or error, expected_pvalues or error) *)
-Definition run_all (k : tkind) (b : basedist) (sq phi : Qc -> Qc) (q qA : Qc) :=
+(* one observation of a calculator: (teststat, sqrtqmuA_v, pvalues or error) *)
+Definition run_one (k : tkind) (b : basedist) (sq phi : Qc -> Qc) (q qA : Qc) :=
   let '(ts, sA) := teststatistic QcNum sq k q qA in
-  (qout ts, qout sA,
+  ([qout ts; qout sA],
    match run_obs QcNum phi sq k b q qA with
-   | inl e => inl e | inr (x, y, z) => inr [oq x; oq y; oq z] end,
-   match run_exp QcNum phi sq k b q qA with
-   | inl e => inl e | inr l => inr (map (map oq) l) end).
+   | inl e => inl e | inr (x, y, z) => inr [oq x; oq y; oq z] end).
+(* its expected band (by Asympt.run_exp_indep the same for every test statistic and every q) *)
+Definition run_band (b : basedist) (sq phi : Qc -> Qc) (qA : Qc) :=
+  match run_exp QcNum phi sq KQ b 0%Qc qA with
+  | inl e => inl e | inr l => inr (map (map oq) l) end.
+Lemma run_band_any : forall k b sq phi q qA,
+  run_band b sq phi qA = match run_exp QcNum phi sq k b q qA with inl e => inl e | inr l => inr (map (map oq) l) end.
+Proof. intros. unfold run_band. rewrite (run_exp_indep QcNum phi sq KQ k b 0%Qc q qA). reflexivity. Qed.
 
 (* direct use of one AsymptoticTestStatDistribution(shift, cutoff): pvalue(v), cdf(v), expected_value(n) *)
 Definition run_dist (phi : Qc -> Qc) (sh : Qc) (cut : option Qc) (v n : Qc) :=
